@@ -1126,7 +1126,7 @@ type ident struct {
 // authority, split the path on "/", percent-decode each segment. It shares no code with
 // connect.ParseCertURI or net/url.
 func readIdentity(s string) (ident, bool) {
-	const pre = "spiffe://"
+	const pre = "spiffe:"
 	if !strings.HasPrefix(s, pre) {
 		return ident{}, false
 	}
@@ -1138,14 +1138,22 @@ func readIdentity(s string) (ident, bool) {
 	if i := strings.IndexByte(rest, '?'); i >= 0 {
 		rest = rest[:i]
 	}
-	slash := strings.IndexByte(rest, '/')
-	if slash < 0 {
+	host := ""
+	if strings.HasPrefix(rest, "//") {
+		rest = rest[2:]
+		slash := strings.IndexByte(rest, '/')
+		if slash < 0 {
+			return ident{}, false
+		}
+		host, rest = rest[:slash], rest[slash:]
+		if i := strings.LastIndexByte(host, '@'); i >= 0 {
+			host = host[i+1:]
+		}
+	}
+	if !strings.HasPrefix(rest, "/") {
 		return ident{}, false
 	}
-	host, path := rest[:slash], rest[slash+1:]
-	if i := strings.LastIndexByte(host, '@'); i >= 0 {
-		host = host[i+1:]
-	}
+	path := rest[1:]
 	segs := strings.Split(path, "/")
 	dec := make([]string, len(segs))
 	for i, sg := range segs {
@@ -1249,10 +1257,14 @@ func classify(err error) (string, string) {
 }
 
 func newWorld(rng *rand.Rand, id int, key *ecdsa.PrivateKey) *world {
-	w := &world{id: id, m: newMachine(), key: key}
 	dcs := []string{"dc1", "dc1", "east-1", "primary"}
 	clusters := []string{"11111111-2222-3333-4444-555555555555", "AbCdEf01-2222-3333-4444-555555555555", "c1"}
-	w.env = genEnv{dc: dcs[rng.Intn(len(dcs))], cluster: clusters[rng.Intn(len(clusters))]}
+	return newWorldEnv(rng, id, key, genEnv{dc: dcs[rng.Intn(len(dcs))], cluster: clusters[rng.Intn(len(clusters))]})
+}
+
+func newWorldEnv(rng *rand.Rand, id int, key *ecdsa.PrivateKey, env genEnv) *world {
+	w := &world{id: id, m: newMachine(), key: key}
+	w.env = env
 	conf := consul.DefaultConfig()
 	conf.Datacenter = w.env.dc
 	conf.PrimaryDatacenter = w.env.dc
@@ -1272,7 +1284,8 @@ func newWorld(rng *rand.Rand, id int, key *ecdsa.PrivateKey) *world {
 	// bootstraps from the provider table index
 	w.m.idx = uint64(rng.Intn(40))
 	w.d = &consul.VerifCADelegate{FSM: w.m.f, Conf: conf}
-	w.d.NextIndex = func() uint64 { w.m.idx += 1 + uint64(rng.Intn(2)); return w.m.idx }
+	irng := rand.New(rand.NewSource(int64(id)*7919 + 13)) // index gaps must not depend on outcomes
+	w.d.NextIndex = func() uint64 { w.m.idx += 1 + uint64(irng.Intn(2)); return w.m.idx }
 	w.d.Trace = func(idx uint64, req *structs.CARequest, resp interface{}) {
 		st := Step{Idx: idx, Op: opOf(req), Out: outOf(resp), Dump: w.m.dump()}
 		if st.Out.K == "serial" {
@@ -1674,11 +1687,11 @@ func doReplay(path string) int {
 	case r.Sign != nil:
 		rng := rand.New(rand.NewSource(1))
 		key, _ := ecdsa.GenerateKey(elliptic.P256(), crand.Reader)
-		w := newWorld(rng, 0, key)
-		defer w.m.close()
 		dc, _ := hex.DecodeString(r.Sign.DC)
 		cl, _ := hex.DecodeString(r.Sign.Cluster)
-		fmt.Printf("note: replay world has dc=%s cluster=%s; recorded case had dc=%s cluster=%s\n", w.env.dc, w.env.cluster, dc, cl)
+		w := newWorldEnv(rng, 0, key, genEnv{dc: string(dc), cluster: string(cl)})
+		defer w.m.close()
+		fmt.Printf("server datacenter %q, cluster ID %q, request URIs %q\nACL rules:\n%s\n", w.env.dc, w.env.cluster, r.Sign.RawURIs, r.Sign.Rules)
 		spec := sanSpec{uris: r.Sign.RawURIs, caExt: r.Sign.CAExt}
 		pemCSR, err := buildCSR(key, spec)
 		if err != nil {
@@ -1706,7 +1719,7 @@ func doReplay(path string) int {
 			return 0
 		}
 		leaf, _, _ := connect.ParseLeafCerts(issued.CertPEM)
-		fmt.Printf("issued: URIs=%v IsCA=%v serial=%v\n", leaf.URIs, leaf.IsCA, leaf.SerialNumber)
+		fmt.Printf("issued: URIs=%v IsCA=%v serial=%v (the recorded oracle verdict: %s)\n", leaf.URIs, leaf.IsCA, leaf.SerialNumber, r.Sign.Oracle)
 		return 1
 	}
 	fmt.Println("nothing to replay in", path)
